@@ -375,11 +375,10 @@ namespace smt
         else if (const auto at_expr = exprs.find(s_expr); at_expr != exprs.cend()) // the expression already exists..
             return at_expr->second;
         else
-        { // we need to create a new variable..
-            const auto ctr = new_at_most_one(ls);
-            ls.push_back(!ctr);
-            if (!new_clause(std::move(ls)))
-                return FALSE_lit;
+        { // the exact-one is the conjunction of the at-most-one (whose literal might be shared with whoever asked for the at-most-one of the same literals, hence it cannot be strengthened) and of the at-least-one..
+            const auto amo = new_at_most_one(ls);
+            const auto alo = new_disj(std::move(ls));
+            const auto ctr = new_conj({amo, alo});
             exprs.emplace(s_expr, ctr);
             return ctr;
         }
